@@ -13,6 +13,8 @@ import (
 	"bwverif/gen"
 	"bwverif/rt"
 
+	"github.com/google/badwolf/storage"
+	"github.com/google/badwolf/storage/memoization"
 	"github.com/google/badwolf/triple"
 )
 
@@ -37,7 +39,7 @@ func errClass(err error) string {
 // compareSelect runs the query for real and against the reference; class is
 // the syntactic class of the case used in violation keys. It returns the
 // number of reference rows (or -1 when the comparison could not be made).
-func compareSelect(ctx context.Context, r *rt.Rec, q *bq.Query, data bq.Data, class string, chanSize int) int {
+func compareSelect(ctx context.Context, r *rt.Rec, q *bq.Query, data bq.Data, class string, chanSize int, also ...storage.Store) int {
 	text := q.Text()
 	r.Begin(text)
 	lo, hi := q.Bounds()
@@ -82,7 +84,46 @@ func compareSelect(ctx context.Context, r *rt.Rec, q *bq.Query, data bq.Data, cl
 		ww["bindings"] = q.OutBindings()
 		r.Violation(mode+"/"+class, fmt.Sprintf("SELECT result differs from the solutions of its pattern: %d missing, %d extra (reference has %d rows)", len(a), len(b), len(want)), ww)
 	}
+	// the same statement on long-lived stores holding the same data (a memoizing
+	// store that has already served other statements): same solutions
+	for _, st2 := range also {
+		r.Eval(1)
+		tbl2, _, err2 := bq.Run(ctx, st2, text, chanSize, 10)
+		if err2 != nil || tbl2 == nil {
+			ww := w()
+			ww["error"] = fmt.Sprint(err2)
+			r.Violation("memoized-store/unexpected-error/"+class, fmt.Sprintf("the statement fails on a memoizing store that served other statements before: %v", err2), ww)
+			continue
+		}
+		got2 := bq.TableRows(tbl2, q.OutBindings())
+		if bq.DuplicatedAcrossGraphs(q.Graphs, data) {
+			got2 = cv.Dedup(got2)
+		}
+		if a, b := cv.MultisetDiff(want, got2); len(a) > 0 || len(b) > 0 {
+			ww := w()
+			ww["missing"], ww["extra"] = showAll(a, 5), showAll(b, 5)
+			r.Violation("memoized-store/different-rows/"+class, fmt.Sprintf("on a memoizing store that served other statements before, the SELECT differs from the solutions of its pattern: %d missing, %d extra", len(a), len(b)), ww)
+		}
+	}
 	return len(want)
+}
+
+// memoFor keeps one memoizing store per data set for as long as the data set is
+// in use, so that consecutive statements share its caches.
+type memoFor struct {
+	st map[string]storage.Store
+}
+
+func (m *memoFor) get(ctx context.Context, data bq.Data) storage.Store {
+	k := fmt.Sprintf("%p", data)
+	if st, ok := m.st[k]; ok {
+		return st
+	}
+	if m.st == nil || len(m.st) >= 4 {
+		m.st = map[string]storage.Store{}
+	}
+	m.st[k] = memoization.New(bq.NewStore(ctx, data))
+	return m.st[k]
 }
 
 // nearMiss: the data holds a triple that matches all but one component of
@@ -117,6 +158,7 @@ func nearMiss(q *bq.Query, data bq.Data) bool {
 
 func c03OneClause(r *rt.Rec, part, parts int, seed int64, maxExtr int) {
 	ctx := context.Background()
+	memo := &memoFor{}
 	rng := gen.Rng(seed, "c03data", 0)
 	sets := []bq.Data{gen.DataSet(rng, 1, 18, false), gen.DataSet(rng, 2, 14, false)}
 	shapes := gen.AllShapes()
@@ -135,7 +177,7 @@ func c03OneClause(r *rt.Rec, part, parts int, seed int64, maxExtr int) {
 				continue
 			}
 			q := gen.SelectAll([]bq.Clause{c}, graphs)
-			n := compareSelect(ctx, r, q, data, "one:"+sh.String(), 0)
+			n := compareSelect(ctx, r, q, data, "one:"+sh.String(), 0, memo.get(ctx, data))
 			if n > 0 && nearMiss(q, data) {
 				r.Nontrivial(fmt.Sprintf("%s|%d", sh, di))
 			}
@@ -239,6 +281,7 @@ func patternClass(q *bq.Query) string {
 
 func c03TwoClause(r *rt.Rec, part, parts int, seed int64, limit int) {
 	ctx := context.Background()
+	memo := &memoFor{}
 	rng := gen.Rng(seed, "c03two", part)
 	drng := gen.Rng(seed, "c03data2", 0)
 	sets := []bq.Data{gen.DataSet(drng, 1, 16, false), gen.DataSet(drng, 2, 12, false)}
@@ -265,7 +308,7 @@ func c03TwoClause(r *rt.Rec, part, parts int, seed int64, limit int) {
 			if len(q.Vars) == 0 {
 				continue
 			}
-			rows := compareSelect(ctx, r, q, data, "two:"+patternClass(q), 0)
+			rows := compareSelect(ctx, r, q, data, "two:"+patternClass(q), 0, memo.get(ctx, data))
 			if rows > 0 && nearMiss(q, data) {
 				r.Nontrivial(q.Text())
 			}
@@ -278,6 +321,7 @@ func c03TwoClause(r *rt.Rec, part, parts int, seed int64, limit int) {
 
 func c03Random(r *rt.Rec, rng *rand.Rand, n int) {
 	ctx := context.Background()
+	memo := &memoFor{}
 	shapes := gen.ReducedShapes()
 	var data bq.Data
 	for i := 0; i < n; i++ {
@@ -310,7 +354,7 @@ func c03Random(r *rt.Rec, rng *rand.Rand, n int) {
 		}
 		gen.RandomBounds(rng, q)
 		gen.Reproject(rng, q)
-		rows := compareSelect(ctx, r, q, data, "rnd:"+patternClass(q), []int{0, 1, 7}[rng.Intn(3)])
+		rows := compareSelect(ctx, r, q, data, "rnd:"+patternClass(q), []int{0, 1, 7}[rng.Intn(3)], memo.get(ctx, data))
 		if rows > 0 && nearMiss(q, data) {
 			r.Nontrivial(q.Text())
 		}
@@ -324,7 +368,7 @@ func init() {
 	register(&rt.Check{
 		ID:    "C03",
 		Level: "exploration",
-		Rule: "(a) the one-clause shape space: subject {stored, absent, binding} x extractions {-, AS, TYPE, ID, TYPE+ID, AS+TYPE+ID}; predicate {immutable stored/absent, temporal, temporal in another zone, binding, \"id\"@[?t], \"id\"@[,], \"id\"@[T1,T2], \"id\"@[T2,]} x {-, AS, ID, AT, ...}; object {node, literal, predicate, binding, the subject's binding again, \"p\"@[?t], \"p\"@[T1,T2]} x {-, AS, TYPE, ID, AT, ...} (quick: at most one extraction; thorough: all ~27k shapes) on two data sets; (b) two-clause combinations of a reduced shape set sharing 0-2 bindings in any position pair (quick: sampled, thorough: all); (c) random 2-4 clause patterns with shared bindings, bounds whose limits are time bindings of earlier clauses (\"id\"@[?lo,?hi]), global BEFORE/AFTER/BETWEEN, 1-3 FROM graphs, projections with aliases; all rendered to BQL text and run through lexer, parser, planner and Execute; " +
+		Rule: "(a) the one-clause shape space: subject {stored, absent, binding} x extractions {-, AS, TYPE, ID, TYPE+ID, AS+TYPE+ID}; predicate {immutable stored/absent, temporal, temporal in another zone, binding, \"id\"@[?t], \"id\"@[,], \"id\"@[T1,T2], \"id\"@[T2,]} x {-, AS, ID, AT, ...}; object {node, literal, predicate, binding, the subject's binding again, \"p\"@[?t], \"p\"@[T1,T2]} x {-, AS, TYPE, ID, AT, ...} (quick: at most one extraction; thorough: all ~27k shapes) on two data sets; (b) two-clause combinations of a reduced shape set sharing 0-2 bindings in any position pair (quick: sampled, thorough: all); (c) random 2-4 clause patterns with shared bindings, bounds whose limits are time bindings of earlier clauses (\"id\"@[?lo,?hi]), global BEFORE/AFTER/BETWEEN, 1-3 FROM graphs, projections with aliases; all rendered to BQL text and run through lexer, parser, planner and Execute, on a fresh memory store and on one long-lived memoizing store per data set (which has served the earlier statements); " +
 			"oracle: naive nested-loop evaluator of Appendix A, rows compared as multisets of kind-tagged canonical cells (sets when a triple sits in several listed graphs); an Execute error is a violation; non-trivial = reference result non-empty and the data holds a near miss (matches all but one component of a clause); distinct by statement text",
 		Assume: []string{"reference semantics of DESIGN.md Appendix A (taken from the property and docs/bql.md)", "TYPE/ID string bindings are never reused in subject/predicate/object position (join of str with text literal is undefined)"},
 		Floor:  300,
